@@ -103,7 +103,7 @@ def specOfCase (j : Json) : Except String Json := do
   let view ← getStrList j "view"
   let o := TextSpec.spec c
   let texts := o.plans.map fun (key, ps) =>
-    (key, ps.flatMap fun (kind, _) => view.filterMap fun lang => (TextSpec.text c key kind lang).map fun t => (kind, lang, t))
+    (key, ps.flatMap fun (kind, _) => view.filterMap fun lang => (TextSpec.textOf o key kind lang).map fun t => (kind, lang, t))
   return Json.mkObj [
     ("langs", Json.arr (o.langs.map jstr).toArray),
     ("langs_content", Json.arr (o.langsContent.map jstr).toArray),
